@@ -163,6 +163,10 @@ func Explore(opt Options, body func(), judge Judge) *Stats {
 			pts = pts[:len(pts)-1]
 		} else {
 			if e.Status() == StepLimit {
+				if opt.HorizonClause != "" {
+					st.Violations = append(st.Violations, Violation{Failure: Failure{Clause: opt.HorizonClause, Msg: fmt.Sprintf("the execution is still running after %d steps (threads or timers never come to rest)", opt.MaxSteps), Sig: "no-termination-within-horizon"}, Choices: choicesOf(e.Points)})
+					break
+				}
 				st.Violations = append(st.Violations, Violation{Failure: Failure{Clause: "engine", Msg: "step horizon hit", Sig: "steplimit"}, Choices: choicesOf(e.Points)})
 				st.Exhaustive = false
 				st.CapHit = "step horizon"
